@@ -62,6 +62,8 @@ pub fn cases(rng: &mut Rng, tier: &str) -> (Vec<Case>, bool) {
         } else {
             vec![(rng.chance(1, 2), rng.chance(1, 2), rng.chance(1, 2))]
         };
+        // a program that did not end within the in-process step budget would only time out here
+        let combos = if w.cut { vec![] } else { combos };
         for (ww, tt, ss) in combos {
             w.op(&format!("cli {} {} {} {}", ww as u8, tt as u8, ss as u8, hexs(&text)));
             checks.push(format!("cli-same {}", w.last()));
